@@ -41,6 +41,8 @@ CORPUS = [
     [("struct Z { wchar w[2]; float f; double d; int24 i; uint48 j; uleb128 k; char e[EOF]; };", ["Z"], [])],
     [("struct AA { uint8 a; };", ["AA"], []), ("struct AB { uint16 b; };", ["AB"], []), ("struct AC { AA a; AB b; };", ["AC"], ["AA", "AB"]), ("enum AD { X1, X2 };", ["AD"], []),
      ("typedef AB ABalias;", ["ABalias"], ["AB"])],
+    [("enum PE : uint8 { PA = (1 + 2), PB = ~0 & 3, PC = (PA | 4) * 2, PD = -(-5), PF, PG = ~(~7) };", ["PE"], []), ("flag PF_ : uint16 { QA = (1), QB = (QA << 1) | QA, QC = ~0xFFF0 };", ["PF_"], []),
+     ("struct PS { PE e; PF_ f; uint8 a[(2 + 1) * 2]; uint8 b[~0 & 3]; };", ["PS"], ["PE", "PF_"])],
     [("enum AE : int16 { M = -2, N, O = M + 10 };", ["AE"], []), ("flag AF { F1, F2, F3 };", ["AF"], []), ("#define SZ 2\n", ["SZ"], []), ("struct AG { AE e[SZ]; AF f; };", ["AG"], ["AE", "AF", "SZ"])],
     [("struct AH { uint8 _; uint16 _; uint8 a; };", ["AH"], [])],
     [("#define len 4\n", ["len"], []), ("struct HasConst { uint8 a[len]; uint8 t; };", ["HasConst"], ["len"]), ("struct HasField { uint8 len; uint8 data[len]; uint8 t; };", ["HasField"], ["len"]),
@@ -472,7 +474,63 @@ REDECLARATIONS = [
     ("typedef uint32 SN;", "typedef DWORD SN;", False),
     ("typedef uint32 SN;", "typedef uint16 SN;", True),
     ("struct SN { uint8 a; };", "typedef SN SN2;", False),
+    # array and pointer aliases: another length, element type or target is another target
+    ("typedef uint8 SN[2];", "typedef uint8 SN[3];", True),
+    ("typedef uint8 SN[2];", "typedef uint16 SN[2];", True),
+    ("typedef uint8 SN[2];", "typedef uint8 SN[2][2];", True),
+    ("typedef uleb128 SN[2];", "typedef uleb128 SN[3];", True),
+    ("struct dyn1 { uint8 n; char d[n]; };\ntypedef dyn1 SN[2];", "typedef dyn1 SN[3];", True),
+    ("typedef uint8 SN[2];", "typedef uint8 SN[];", True),
+    ("typedef uint8 *SN;", "typedef uint16 *SN;", True),
+    ("typedef uint8 *SN;", "typedef uint8 **SN;", True),
+    ("typedef uint8 *SN;", "typedef uint8 SN;", True),
+    ("typedef char SN[4];", "typedef char SN[8];", True),
+    ("typedef wchar SN[4];", "typedef char SN[4];", True),
 ]
+
+UNKNOWN_REFS = [
+    "struct S { struct ghost_t *b; };", "struct S { union ghost_t *b; };", "struct S { struct ghost_t **b; };", "typedef struct ghost_t *P;", "typedef union ghost_t *P;",
+    "struct S { ghost_t *b; };", "struct S { ghost_t b[2]; };", "typedef ghost_t G2;", "struct S { struct ghost_t b; };", "struct S { uint8 a; ghost_t b; };",
+    "typedef ghost_t *GP;", "typedef ghost_t GA[2];", "struct S { uint8 n; ghost_t d[n]; };", "union U { ghost_t g; uint8 b; };", "struct S { struct { ghost_t g; } in_; };",
+]
+
+
+def unknown_refs(tier) -> JobResult:
+    """A reference to an unknown type - in any declarator form - is a resolve error; it does not bind the name to something else, and the proper
+    definition can be loaded afterwards."""
+    from dissect.cstruct import cstruct
+    from dissect.cstruct.exceptions import ResolveError
+
+    res = JobResult()
+    for text in UNKNOWN_REFS:
+        for prefix in ("", "struct known_t { uint8 k; };\n"):
+            cs = cstruct()
+            res.evaluations += 1
+            res.states += 1
+            res.nontrivial += 1
+            res.transitions += 2
+            case = {"unknown-ref": prefix + text}
+            try:
+                cs.load(prefix + text)
+                res.violations.append(Violation("unknown-ref:accepted", "unknown-ref:accepted", case, f"{prefix + text!r} was accepted; ghost_t is {cs.typedefs.get('ghost_t')!r}"))
+                continue
+            except ResolveError:
+                pass
+            except Exception as e:  # noqa: BLE001
+                res.violations.append(Violation("unknown-ref:wrong-error", "unknown-ref:wrong-error", case, f"{prefix + text!r}: {impl.exc_sig(e)} {e!r}, expected a resolve error"))
+                continue
+            if "ghost_t" in cs.typedefs:
+                res.violations.append(Violation("unknown-ref:bound", "unknown-ref:bound", case, f"{prefix + text!r} was refused but ghost_t is now bound to {cs.typedefs['ghost_t']!r}"))
+                continue
+            try:
+                cs.load("struct ghost_t { uint8 a; uint16 b; };")
+                if len(cs.ghost_t) != 3:
+                    raise ValueError(f"size {len(cs.ghost_t)}")
+            except Exception as e:  # noqa: BLE001
+                res.violations.append(Violation("unknown-ref:residue", "unknown-ref:residue", case, f"after the refused {prefix + text!r}, defining ghost_t properly fails: {impl.exc_sig(e)} {e!r}"))
+    res.samples.append({"unknown_refs": UNKNOWN_REFS[:4]})
+    return res
+
 
 
 def redeclarations(tier) -> JobResult:
@@ -511,7 +569,7 @@ def redeclarations(tier) -> JobResult:
 
 
 def jobs(tier):
-    out = [("aliases", tier), ("alias-histories", tier), ("load-kwargs", tier), ("redeclare", tier)]
+    out = [("aliases", tier), ("alias-histories", tier), ("load-kwargs", tier), ("redeclare", tier), ("unknown-refs", tier)]
     for ci in range(len(CORPUS)):
         out.append(("insert", tier, ci))
         out.append(("orders", tier, ci))
@@ -521,6 +579,8 @@ def jobs(tier):
 def run(job) -> JobResult:
     if job[0] == "aliases":
         return aliases(job[1])
+    if job[0] == "unknown-refs":
+        return unknown_refs(job[1])
     if job[0] == "alias-histories":
         return alias_histories(job[1])
     if job[0] == "load-kwargs":
@@ -558,6 +618,8 @@ def replay(case):
         return load_kwargs_histories("thorough").violations
     if "redeclare" in case:
         return [v for v in redeclarations("thorough").violations if v.case == case]
+    if "unknown-ref" in case:
+        return [v for v in unknown_refs("thorough").violations if v.case == case]
     return aliases("thorough").violations
 
 
